@@ -4,6 +4,16 @@ import json, os
 V = os.path.dirname(os.path.dirname(os.path.abspath(__file__)))
 
 CHECKS = {
+    "C02": dict(
+        text="Coq theorems: every legal msgpack encoding (all integer/string/container widths, by an explicit choice list) of every well-formed value decodes back to it; exact byte layout of the five frame kinds; every legal encoding of a frame with extra trailing elements decodes to the same message. The extracted encoder/decoder are run against frames captured from the public API on a simulated connection and against the frame reader fed by an independent writer.",
+        note="Trusted: Coq kernel, extraction + OCaml glue, Go harness, Python writer. Modelled not verified: go-codec generic decoding; its reflection into typed structs, float32 and ext are outside the model. Compressed payloads enter the model through an inflate oracle computed by the harness with compress/gzip / msgpackzip.",
+        technique="Coq proof (structural induction, round trip) + extracted-model differential correspondence",
+        design="6/C02"),
+    "C04": dict(
+        text="Coq theorems: a buffered reader whose consumers loop until satisfied delivers the same bytes under every chunking, so the chunked frame reader refines the flat one (outcomes and residual stream); each frame consumes exactly its declared length whatever its content, and the next frame is decoded from its first byte. The extracted flat model is run against the real frame reader under all 2^(n-1) partitions of short streams and cuts / 1-byte reads of long ones.",
+        note="Trusted: as C02. The frame reader's clamp-and-drain is modelled as exact declared-length consumption; bufio and go-codec's ReadFull-style loops are modelled by Model/Reader.v (not verified against their source).",
+        technique="Coq proof (refinement of a chunked reader to a flat stream) + extracted-model differential correspondence",
+        design="6/C04"),
     "C18": dict(
         text="Coq theorems over an executable model of the rotation object (for every permutation oracle, every op sequence) and of the URI grammar zone; the model's acceptor and parser are extracted and run against the real package on generated groups, op sequences, concurrent callers and URI strings.",
         note="Trusted: Coq kernel; extraction (ExtrOcamlBasic) + OCaml glue; Go harness. Modelled not verified: ASCII TrimSpace/ToLower, net/url + SplitHostPort inside the stated zone; rand.Perm assumed to return permutations (section hypothesis).",
